@@ -40,7 +40,9 @@ var typeNames = []string{"ni", "nc", "rc", "tk"}
 const shortVal = "s"
 const longVal = "a-much-longer-value-0123456789-0123456789-0123456789-0123456789"
 
-var idNames = []string{"a", "ab"}
+// (ids: one a prefix of the other; one with a leading dot, which a back end
+// that maps ids to file names must not treat as hidden)
+var idNames = []string{"a", "ab", ".a"}
 
 func newMsg(t, id, val string) nodeenrollment.MessageWithId {
 	switch t {
@@ -191,6 +193,16 @@ func apply(be *backend, m model, op string) string {
 			return fmt.Sprintf("remove of an existing entry failed: %v", err)
 		}
 		delete(m, t+"/"+id) // result of removing an absent entry is unconstrained
+	case "SC":
+		// a store whose context is already cancelled: whatever it answers, a
+		// call that reports an error has stored nothing
+		t, id := f[1], f[2]
+		cctx, cancel := context.WithCancel(ctx)
+		cancel()
+		msg := newMsg(t, id, "stored-under-a-cancelled-context")
+		if err := be.st.Store(cctx, msg); err == nil {
+			m[t+"/"+id] = "stored-under-a-cancelled-context" // accepted: then it must be there
+		}
 	case "Xnil":
 		if err := be.st.Store(ctx, nil); err == nil {
 			return "Store(nil) was accepted"
@@ -271,6 +283,7 @@ func observe(be *backend, m model) string {
 			}
 		}
 		sort.Strings(got)
+		sort.Strings(want)
 		if strings.Join(got, ",") != strings.Join(want, ",") {
 			return fmt.Sprintf("list %s: got %v, model has %v", t, got, want)
 		}
@@ -285,7 +298,7 @@ func mutators(thorough bool) []string {
 			ops = append(ops, "S:"+t+":"+id+":"+shortVal, "S:"+t+":"+id+":"+longVal, "R:"+t+":"+id)
 		}
 	}
-	ops = append(ops, "Xnil", "Xtypednil", "Xunknown", "Xemptyid:ni", "Xemptyid:rc")
+	ops = append(ops, "SC:ni:a", "SC:rc:ab", "Xnil", "Xtypednil", "Xunknown", "Xemptyid:ni", "Xemptyid:rc")
 	return ops
 }
 
@@ -737,7 +750,7 @@ func init() {
 		ID:     "C19",
 		Level:  "model_checking",
 		Binary: "sched",
-		Rule: "sequential: BFS over {store short|long value, remove} x 4 types x ids {a,ab} plus nil / typed-nil / unknown-type / empty-id operations on the real inmem, file and store-once back ends (quick depth 3/2, thorough fixpoint/3), state = map model, every transition followed by a full load+list comparison and (states being merged by model contents, which would hide history kept inside a back end) by one further step of each operation on the slot just touched; concurrent: all interleavings (unbounded) of 2 threads x 2 ops and 3 threads x 1 op on the colliding slot ni/a of the in-memory back end under the scheduler, each history checked for linearizability with porcupine; " +
+		Rule: "sequential: BFS over {store short|long value, remove} x 4 types x ids {a, ab, .a} plus stores under an already cancelled context, nil / typed-nil / unknown-type / empty-id operations on the real inmem, file and store-once back ends (quick depth 3/2, thorough fixpoint/3), state = map model, every transition followed by a full load+list comparison and (states being merged by model contents, which would hide history kept inside a back end) by one further step of each operation on the slot just touched; concurrent: all interleavings (unbounded) of 2 threads x 2 ops and 3 threads x 1 op on the colliding slot ni/a of the in-memory back end under the scheduler, each history checked for linearizability with porcupine; " +
 			"states = canonical model states of the sequential search; distinct_nontrivial = sequential states + distinct per-scenario concurrent outcomes",
 		Assumptions: []string{"scheduling points are the lock operations of the in-memory back end (sequential consistency in between); unsynchronised accesses are the race companion's job (sampling)", "the result of removing an absent entry is not constrained (back ends differ, the property is silent)"},
 		Shards:      func(c *engine.Ctx) int { return 16 },
